@@ -35,63 +35,63 @@ attribute [local spec] nextSchedulerEvent_q
 
 theorem handleSchedulerStart_q (ev : SEvent) : KeepsQ (handleSchedulerStart ev) := by
   mvcgen [handleSchedulerStart]
-  all_goals ev_close
+  all_goals qev_close
 
 theorem handleTaskCancel_q (ev : SEvent) : KeepsQ (handleTaskCancel ev) := by
   mvcgen [handleTaskCancel]
-  all_goals ev_close
+  all_goals qev_close
 theorem handleTaskRelease_q (ev : SEvent) : KeepsQ (handleTaskRelease ev) := by
   mvcgen [handleTaskRelease]
-  all_goals ev_close
+  all_goals qev_close
 theorem handleTaskGraphRelease_q (ev : SEvent) : KeepsQ (handleTaskGraphRelease ev) := by
   mvcgen [handleTaskGraphRelease]
-  all_goals ev_close
+  all_goals qev_close
 theorem handleProfile_q (ev : SEvent) (load : Bool) : KeepsQ (handleProfile ev load) := by
   mvcgen [handleProfile]
-  all_goals ev_close
+  all_goals qev_close
 theorem placementNotReady_q (ev : SEvent) (t : TaskId) (p : PlacementS) : KeepsQ (placementNotReady ev t p) := by
   mvcgen [placementNotReady]
   case inv1 => exact qLoop
   case inv2 => exact qLoop
-  all_goals ev_close
+  all_goals qev_close
 theorem placementRow_q (t : TaskId) (pid : Nat) (time : Int) (st : Strategy) : KeepsQ (placementRow t pid time st) := by
   mvcgen [placementRow]
-  all_goals ev_close
+  all_goals qev_close
 attribute [local spec] placementRow_q placementNotReady_q
 theorem placementPlace_q (ev : SEvent) (t : TaskId) (p : PlacementS) (g : GraphS) (h : g.isReadyToRun t.t = true) :
     KeepsQ (placementPlace ev t p g h) := by
   mvcgen [placementPlace]
-  all_goals ev_close
+  all_goals qev_close
 attribute [local spec] placementPlace_q
 theorem handleTaskPlacement_q (ev : SEvent) : KeepsQ (handleTaskPlacement ev) := by
   mvcgen [handleTaskPlacement]
-  all_goals ev_close
+  all_goals qev_close
 theorem handleUpdateWorkload_q (ev : SEvent) : KeepsQ (handleUpdateWorkload ev) := by
   mvcgen [handleUpdateWorkload]
   case inv1 => exact qLoop
   case inv2 => exact qLoop
-  all_goals ev_close
+  all_goals qev_close
 
 theorem finishRemove_q (t : TaskId) (time : Int) : KeepsQ (finishRemove t time) := by
   mvcgen [finishRemove]
-  all_goals ev_close
+  all_goals qev_close
 theorem finishRows_q (t : TaskId) (time : Int) : KeepsQ (finishRows t time) := by
   mvcgen [finishRows]
-  all_goals first | exact qLoop | ev_close
+  all_goals first | exact qLoop | qev_close
 theorem finishNotify_q (t : TaskId) (time : Int) : KeepsQ (finishNotify t time) := by
   mvcgen [finishNotify]
-  all_goals first | exact qLoop | ev_close
+  all_goals first | exact qLoop | qev_close
 attribute [local spec] finishRemove_q finishRows_q finishNotify_q
 theorem handleTaskFinished_q (ev : SEvent) : KeepsQ (handleTaskFinished ev) := by
   mvcgen [handleTaskFinished]
-  all_goals ev_close
+  all_goals qev_close
 
 theorem handleSchedulerFinish_q (ev : SEvent) : KeepsQ (handleSchedulerFinish ev) := by
   mvcgen [handleSchedulerFinish]
   case inv1 => exact evLoop
   case inv2 => exact qLoop
   all_goals first
-    | ev_close0
+    | qev_close0
     | (pick_hyp h => exact h.2)
     | (pick_hyp hl => pick_hyp h => exact wf_of_sorted hl h)
 
